@@ -42,8 +42,9 @@ def rules(model: Model, tier: str) -> List[RuleResult]:
     G = RuleResult(PROP, "C09-G", "sibling wrappers delegate getter and setter in the same (all-names) space", min_instances=4)
     N = RuleResult(PROP, "C09-N", "nn.Module parameters are installed through the dotted-path helpers for every captured name", min_instances=3)
     _delegation(model, G)
-    from .c10 import _order
+    from .c10 import _order, setparams_structure
     _order(model, N)
+    setparams_structure(model, N)
     return [R6, S, D, U, I, G, N]
 
 
